@@ -87,6 +87,9 @@ def _column(rng, n, style):
     if style == "float":
         mu, sd = rng.choice([(0, 1), (0.5, 0.1), (100, 3), (0, 1e-3)])
         return [Fraction(rng.gauss(mu, sd)) for _ in range(n)]
+    if style == "tied_float":    # few distinct non-dyadic values, many ties (rates k/7, 0.1, 1/3): interpolation between equal neighbours
+        pool = [Fraction(v) for v in rng.sample([0.1, 0.3, 1 / 3, 3 / 7, 5.3, 0.7, 2 / 7, 0.007, 1 / 7], rng.choice([1, 2, 2, 3]))]
+        return [rng.choice(pool) for _ in range(n)]
     if style == "floatskew":
         return [Fraction(math.exp(rng.gauss(0, 1))) for _ in range(n)]
     raise ValueError(style)
@@ -148,7 +151,7 @@ def _one_case(rng, k, force=None):
     styles_e = ["constant", "discrete", "discrete", "skewed", "skewed", "outlier", "dyadic", "dyadic"]
     if int_dtype:
         styles_e = ["intcount", "intcount", "constant_int"]
-    styles_f = ["float", "float", "floatskew", "discrete"]
+    styles_f = ["float", "float", "floatskew", "discrete", "tied_float", "tied_float"]
     cols, hats, cstyles, hstyles = [], [], [], []
     allnan = rng.random() < 0.03 and size >= 1 and not int_dtype
     for j in range(size):
@@ -316,6 +319,9 @@ def run_impl(case):
         buf *= a
         buf += b
         out["affine_inplace"] = call(buf, a * hat + b, alpha)
+    if case.get("dtype") == "int" and theta.size and theta.min() >= 0 and hat.min() >= 0 and max(theta.max(), hat.max()) < 60000:
+        # count-valued replicates held in an unsigned dtype: the same numbers, the same interval
+        out["unsigned"] = {dn: call(theta.astype(dt_), hat.astype(dt_), alpha) for dn, dt_ in (("uint16", np.uint16), ("uint64", np.uint64))}
     # larger alpha
     if case.get("alpha2") is not None:
         out["alpha2"] = call(theta.copy(), hat.copy(), fl(case["alpha2"]))
@@ -564,7 +570,9 @@ def oracle(case, res):
                                       f"{tag}: {name} limit {got!r}, documented formula gives {float(want)!r} "
                                       f"(p0={info['p0']}, z0={info['z0']}, a={info['a']}, cdf args={info['args']}, levels={info['levels']})"))
             # --- within the range of the finite replicates
-            if lo < float(min(fin)) - slack or hi > float(max(fin)) + slack or lo > float(max(fin)) + slack or hi < float(min(fin)) - slack:
+            # (exactly: each limit is a linear-interpolation quantile a + (b - a) * t of two neighbouring replicates, which
+            # never leaves [a, b] in floating point and is a itself when b == a)
+            if lo < float(min(fin)) or hi > float(max(fin)) or lo > float(max(fin)) or hi < float(min(fin)):
                 fails.append(("C13/range", f"{tag}: limits ({lo}, {hi}) outside the replicate range [{float(min(fin))}, {float(max(fin))}]"))
             # --- ordered
             if info["side_ok"] and lo > hi + slack:
@@ -597,6 +605,12 @@ def oracle(case, res):
     if r.get("affine_inplace") is not None and r.get("affine") is not None and r["affine_inplace"] != r["affine"]:
         fails.append(("C13/history/refilled-buffer", "the interval of a buffer that was analysed before and then refilled in place differs "
                                                      "from the interval of a fresh array with the same contents"))
+    for dn, ou in (r.get("unsigned") or {}).items():
+        if ou.get("ci") != r["ci"]:
+            fails.append(("C13/formula/unsigned-replicates", f"the same count-valued replicates held as {dn} give "
+                          f"{ou.get('err') or [float(F(v)) if v is not None else None for v in ou['ci']][:6]}, as int64 "
+                          f"{[float(F(v)) if v is not None else None for v in r['ci']][:6]} (method {case['method']})"))
+            break
     compare("replicates reordered", "C13/permutation", r.get("perm"))
     compare("all-NaN replicates inserted", "C13/nan-invariance", r.get("nanpad"))
     if case.get("aff") is not None:
